@@ -45,4 +45,37 @@ CHECKS = {
         note="Trusted: Lean kernel; canonical-decimal model of f64 Display (<=15 significant digits); JS string lexer; proc_macro2 token text observed per case.",
         technique="Lean 4 theorems (escape round trip, chain exactness) + differential correspondence",
     ),
+    "C13": dict(
+        text="Proof that every ordered output is computed from a *sorted* enumeration and is therefore the same for every iteration order of the "
+             "hash-based collections and of the directory listing (order = universally quantified permutation); tied to the code by byte comparison of "
+             "N fresh processes (fresh hash seeds), verbosity/visualisation variants and semantics-preserving source transformations on random multi-file projects.",
+        design_ref="DESIGN.md section 7.C13",
+        note="Trusted: Lean kernel; Rust's String/PathBuf Ord = code-point lexicographic; the model's whole-pipeline output is tied by the project-level correspondence (C02/C07 ops).",
+        technique="Lean 4 theorems (sorting is permutation-invariant: Perm.eq_of_pairwise) + multi-process differential runs",
+    ),
+    "C14": dict(
+        text="Proof over the run model (plan of filesystem operations) that after a complete run any number of further non-forced runs execute no operation, "
+             "and that a forced run always executes the whole plan whatever the cache state, force = flag or config; tied to the real binary and the build-script path "
+             "by histories whose observations (action, files written by mtime, cache record) must equal the model's, plus byte+mtime snapshots on multi-file projects.",
+        design_ref="DESIGN.md section 7.C14, Appendix I",
+        note="Trusted: Lean kernel; run model validated per history against the real processes; POSIX fs semantics.",
+        technique="Lean 4 theorems on a state machine + process-level differential histories",
+    ),
+    "C17": dict(
+        text="Proof that the cache invariant holds after every prefix of every run's operation plan (all crash points) and after every single-operation fault, "
+             "that such faults are reported as failure with no cache record left, and that after any history the next successful run restores a fresh generation; "
+             "tied to the real binary by obstacle-injected faults at every write position on both paths, with reverted edits, compared with the model per history.",
+        design_ref="DESIGN.md section 7.C17, Appendix I",
+        note="Trusted: Lean kernel; fault = one failing operation, crash = prefix of the plan; the failing cache-record write itself is covered by the theorems only.",
+        technique="Lean 4 invariant proof over operation prefixes + fault-injection histories",
+    ),
+    "C08": dict(
+        text="Proof that a source-independent cache invariant is preserved by every history of edits, deletions, cache losses, runs, faults and crashes, "
+             "hence 'success means current' for every history, given key soundness; key soundness is discharged at table level against the hash-struct field lists "
+             "extracted from the source on every run (a forgotten field breaks the build of the theorem); tied to the real binary by edit/run/delete histories on both paths "
+             "with byte comparison against a forced generation.",
+        design_ref="DESIGN.md section 7.C08, Appendix I",
+        note="Trusted: Lean kernel; extractor (syn); hash injectivity; one representative edit per edit class.",
+        technique="Lean 4 invariant proof + extracted-table obligation (decide) + process-level differential histories",
+    ),
 }
